@@ -40,15 +40,27 @@ func main() {
 	}
 	r := evidence.New("C08", "exploration")
 	r.Rule("case = (seeded DAG of 6–26 nodes incl. referrers, indexes, absent subjects, a sha512 blob; AutoSaveIndex on|off; AutoGC on|off; 3–6 reference names incl. unicode/odd ones; " +
-		"random history of 12–45 Push/Tag/re-tag/Untag/Delete/GC/SaveIndex steps with annotated tag descriptors, tags on blobs, several tags per manifest, some operations aimed at absent operands, some histories continuing on the reopened store). " +
+		"random history of 12–45 Push/Tag/re-tag/Untag/Delete/GC/SaveIndex steps with tag descriptors carrying annotations, platform (os/architecture/variant/os.version/os.features), artifactType, urls and data alone and combined (also re-tags changing only those fields), tags on blobs, several tags per manifest, some operations aimed at absent operands, some histories continuing on the reopened store). " +
 		"Oracle: on-disk validity after every step (AutoSaveIndex on) and after every SaveIndex (off); Obs(original)=Obs(reopened) after every step via fs.FS and at checkpoints via rw, fs.FS, archive/tar tar, system tar, " +
 		"Obs = Tags, Resolve of every reference name used, Resolve of every digest seen (incl. never-pushed and foreign ones), Exists, Fetch bytes, Predecessors of every node. " +
-		"distinct = hash(options, sequence of operation kinds with outcomes); non-trivial = history contains a successful re-tag or untag and a successful delete or GC")
+		"distinct = hash(options, sequence of operation kinds with outcomes); non-trivial = history contains a successful re-tag or untag and a successful delete or GC. " +
+		"Concurrent sub-phase (also under the race detector): 2–12 goroutines Push/Tag/re-tag/Untag on one store (AutoSaveIndex on, colliding reference names, yield hook between resolver update and index save); after all returned: on-disk validity and Obs(original)=Obs(reopened) on all four paths; distinct = per-goroutine operation kinds; non-trivial = ≥ 2 goroutines and ≥ 4 operations that rewrote index.json")
+	r.Assume("concurrent sub-phase: interleavings are sampled, not enumerated; no expectation on which final state is reached, only original = reopened at quiescence")
 	r.Assume("one media type per digest (media-type twins are C01's shape, as in C07); descriptors passed to Tag carry the node's true media type and size")
 	r.Assume("reference names are valid UTF-8 (JSON cannot carry other byte strings)")
 	r.Assume("with AutoSaveIndex off the directory is only judged after an explicit SaveIndex, as the statement says")
 	worker.Run(r, worker.Opts{Phase: "hist", Total: r.N(400, 6000), Batch: r.N(20, 50)})
-	r.Finish(r.N(100, 1500))
+	// concurrent sub-phase: overlapping Push/Tag/Untag, judged at quiescence
+	worker.Run(r, worker.Opts{Phase: "conc", Total: r.N(120, 2000), Batch: r.N(10, 50)})
+	if bin := os.Getenv("VERIF_RACE_BIN"); bin != "" {
+		raceDir, _ := os.MkdirTemp("", "verif-c08-race-")
+		defer os.RemoveAll(raceDir)
+		worker.Run(r, worker.Opts{Phase: "concrace", Total: r.N(40, 600), Batch: r.N(10, 30), Bin: bin,
+			Env: []string{"GORACE=halt_on_error=0 log_path=" + filepath.Join(raceDir, "race")}})
+		r.Set("race_reports", countRaceReports(raceDir, r))
+		os.RemoveAll(raceDir)
+	}
+	r.Finish(r.N(130, 2000))
 }
 
 // envSeed reads VERIF_SEED (workers must not re-read known_findings.json,
@@ -69,6 +81,9 @@ type witnessT struct {
 }
 
 func runCase(phase string, i int) worker.Result {
+	if phase != "hist" {
+		return runConc(phase, i)
+	}
 	seed := envSeed()
 	rng := evidence.RandFor(seed, "c08-"+phase, i)
 	var res worker.Result
@@ -279,6 +294,19 @@ func runCase(phase string, i int) worker.Result {
 		kinds = append(kinds, kindCode(op, isRetag))
 		res.Count("steps", 1)
 		res.Observe("op_outcomes", op.Kind+"/"+op.Err)
+		if op.Kind == "tag" && err == nil {
+			shape := ""
+			for _, f := range []struct {
+				on   bool
+				name string
+			}{{len(op.Ann) > 0, "ann"}, {op.Platform != nil, "platform"}, {op.ArtifactType != "", "artifactType"}, {len(op.URLs) > 0, "urls"}, {op.Data, "data"}} {
+				if f.on {
+					shape += "+" + f.name
+					res.Count("tag_descriptors_with_"+f.name, 1)
+				}
+			}
+			res.Observe("tag_descriptor_shapes", shape)
+		}
 		res.Count("op_"+op.Kind+map[bool]string{true: "_ok", false: "_" + op.Err}[err == nil], 1)
 		if err == nil {
 			switch op.Kind {
